@@ -78,6 +78,7 @@ class Hooks:
         self.pre_commit = None  # fn(conn) called BEFORE the real commit
         self.pre_rollback = None
         self.locked_retry = None  # E3: fn(conn, sql) -> True to retry after being rescheduled
+        self.fault = None  # fn(conn, sql): may raise an injected fault before the statement runs
         self.commits = 0
         self.statements = 0
 
@@ -91,6 +92,8 @@ class VConn(sqlite3.Connection):
         h.statements += 1
         if h.pre_execute is not None:
             h.pre_execute(self, sql, a[0] if a else None)
+        if h.fault is not None:
+            h.fault(self, sql)  # may raise an injected error
         if h.locked_retry is None:
             return super().execute(sql, *a)
         if sql.lstrip().upper().startswith("PRAGMA BUSY_TIMEOUT"):
